@@ -21,6 +21,7 @@ def run(ctx):
     ctx.model_check("MC_WordGen", "MC_WordGen.cfg", "EntropyCount = number of passwords when all words capitalisable; min-entropy bound otherwise",
                     workers=vlib.NCPU, constants={"MaxLen": 2})
     seps = [dict(sep="char", sepChar=[]), dict(sep="char", sepChar=wlfam.o(" ")), dict(sep="SFDigits1", sepChar=[]), dict(sep="SFDigits2", sepChar=[]),
+            dict(sep="customlist", sepChar=[], sepVals=[[], wlfam.o("-"), wlfam.o("."), wlfam.o("_")]),
             dict(sep="SFNone", sepChar=[]), dict(sep="SFDigits2", sepChar=wlfam.o("-")), dict(sep="SFNone", sepChar=wlfam.o("+")),
             dict(sep="recipe", sepChar=[], sepRecipe=dict(len=3, allow=8, require=0, exclude=0, allowChars=wlfam.o("é"), requireSets=[], excludeChars=[])),
             dict(sep="recipe", sepChar=[], sepRecipe=dict(len=4, allow=12, require=4, exclude=16, allowChars=[], requireSets=[], excludeChars=[]))]
@@ -30,6 +31,10 @@ def run(ctx):
             wl = dict(words=[wlfam.o(w) for w in ws], nolist=0, len=rng.choice([1, 2, 3, 4, 7, 12]), cap=rng.choice(wlfam.SCHEMES + ["random", "one"]))
             wl.update(rng.choice(seps))
             scen.append(dict(kind="wl", wl=wl, maxTrials=0, failRateOne=0, mode="paths", paths=0, maxLeaves=0, tag="entropy-reps", reps=reps))
+    big = ["w%04dx" % i for i in range(2054)] + ["42"]          # 2055 kept words (not a multiple of 8), exactly one of which cannot be capitalised
+    for cap in ("random", "one"):
+        scen.append(dict(kind="wl", wl=dict(words=[wlfam.o(w) for w in big], nolist=0, len=4, cap=cap, sep="char", sepChar=wlfam.o("-")), maxTrials=0, failRateOne=0,
+                         mode="paths", paths=0, maxLeaves=0, tag="big-list-one-fixed-word", reps=400 if quick else 4000))
     files, cells, leaves = wlfam.run_scenarios(ctx, scen, "c08")
     verdicts, decided = wlfam.validate(ctx, files)
     ctx.evaluations = len(scen) * reps
